@@ -37,6 +37,9 @@ impl Name {
         {
             ctx.report("name_record array must be sorted");
         }
+        // a custom validation fn replaces the generated one for this field, so the records
+        // (string encodability) have to be validated from here
+        self.name_record.validate_impl(ctx);
         for (left, right) in self.name_record.iter().zip(self.name_record.iter().skip(1)) {
             let left = (
                 left.platform_id,
